@@ -459,6 +459,9 @@ def c14(tier):
     wd = vlib.workdir("C14", tier)
     vlib.build_harness()
     mc_writer(rep, wd, "quick")
+    # raw copies of sources whose uncompressed size needs ZIP64 while the compressed size does not (and at the limit): the copy's
+    # LOCAL header must carry the ZIP64 record too (sparse store; the source is a tiny archive that declares the sizes)
+    run_zip64_subset(rep, wd, tier, ("rawcopy-",), "zip64-rawcopy")
     sd = vlib.seed()
     g = gen_writer.Gen(sd * 49979687 + 14, tier)
     n = 250 if tier == "quick" else 4000
@@ -553,6 +556,9 @@ def c13(tier):
     rep.add_mc(r, cfg)
     if r["error"]:
         rep.spec_violation(r, cfg)
+    # an archive whose entries genuinely need ZIP64 (a > 4 GiB entry, later header offsets beyond 4 GiB; sparse store), appended to:
+    # the old entries' central records already carry a ZIP64 record and get another one (AppendRepeatsZip64Record), and must read back
+    run_zip64_subset(rep, wd, tier, ("append-after-4g",) if tier == "quick" else ("append-",), "zip64-append")
     import refzip
     sd = vlib.seed()
     g = gen_writer.Gen(sd * 86028121 + 13, tier)
@@ -2775,8 +2781,7 @@ def zip64_scenarios(tier, rnd):
         s = writer_sc("append-after-4g", ops, select=[1, 2, 3])
         s["expect"]["sizes"] = [{"i": 1, "usize": _big(sz), "crc": zc.crc(sz, head, tail)}]
         s["read"] = [{"i": 3, "head": 21, "tail": 0, "expect": {"len": _big(21), "head": b"appended beyond 4 GiB".hex(), "tail": ""}}]
-        if tier == "thorough":
-            scs.append(s)
+        scs.append(s)
     # a foreign producer at real sizes: sparse archive, ZIP64 fields in the layouts the specification allows
     import struct
     def foreign(sc, usize, force, z64end, prefix=0):
@@ -2898,6 +2903,21 @@ def zip64_scenarios(tier, rnd):
         scs.append(foreign("foreign-small-forced", 1000, {"usize", "off"}, True))
         scs.append(foreign("foreign-5g", 5 * (1 << 30) + 1, {"off"}, True, prefix=1 << 16))
     return scs
+
+
+def run_zip64_subset(rep, wd, tier, prefixes, label):
+    """the scenarios of C08's real-limit family whose names start with one of `prefixes`, for the check that owns the behaviour
+    (append rounds: C13; raw copies: C14), validated by Trace_Zip64"""
+    scs = [s for s in zip64_scenarios(tier, random.Random(vlib.seed() * 6469 + 8)) if any(s["sc"].startswith(p) for p in prefixes)]
+    if not scs:
+        raise ToolTrouble("no ZIP64 scenario matches %r" % (prefixes,))
+    progs = os.path.join(wd, label + "-scenarios.ndjson")
+    trace = os.path.join(wd, label + "-trace.ndjson")
+    vlib.write_ndjson(progs, scs)
+    vlib.run_harness(["zexec", progs, trace], timeout=7200)
+    run_trace(rep, wd, "Trace_Zip64", trace, label, {s["sc"]: {k: v for k, v in s.items() if k != "segments"} for s in scs})
+    rep.evaluations += len(scs)
+    rep.notes[label + "_scenarios"] = [s["sc"] for s in scs]
 
 
 def c08(tier):
